@@ -384,6 +384,10 @@ fcache_get_chunk(struct fcache *fc, struct fcache_chunk *fch,
 	while (remain) {
 		status = fcache_get(fc, curfce, fidx, pos);
 		if (status != KDUMP_OK) {
+			if (data) {
+				free(data);
+				return status;
+			}
 			put_fces(curfce - nent, nent);
 			if (fces)
 				free(fces);
